@@ -1,4 +1,5 @@
 import HcProofs.Lemmas.Db
+import HcModel.Generated.SetLock
 /-
   C18 — storage and pairing database behave like a persistent map.
   Property theorems only; helper lemmas live in HcProofs/Lemmas/{Fs,Crash,Storage,Db}.lean.
@@ -138,5 +139,29 @@ example : DbInv modelCodec [([117, 117, 105, 100], [1])] :=
     simp [names] at hn
     subst hn
     exact absurd hs (by decide)⟩
+
+-- concurrent writers ------------------------------------------------------------------------------------------
+
+/-- Why `Set` must not run twice at the same time: two writers of the same key share the temporary sibling. The
+    interleaving "both open and empty `k.tmp`, A writes AAAA, B writes B, A renames" publishes `BAAA` — a value nobody
+    set (F23; observed on the real code before the repair as a mix of 100 'B' and 3996 'A'). -/
+theorem concurrent_sets_unlocked_refuted :
+    let k : Name := [107]
+    let t := tmpName k
+    get (apply [] [.create t, .truncate t, .create t, .truncate t, .write t 0 [65, 65, 65, 65], .write t 0 [66], .close,
+                   .rename t k]) k = .val [66, 65, 65, 65] := by decide
+
+/-- shape of `Set` as it is in the source now (Generated/SetLock.lean, go/ast): one acquisition of the package-level
+    mutex first, released only by a deferred unlock (at return), and every file operation — open, write, rename, the
+    clean-up remove — after it; nothing spawned. So the write sequences of two `Set` calls of one process never
+    interleave, and every history of concurrent calls is one of the sequential histories `refines_map` speaks about. -/
+def setLockOk : List String → Bool
+  | "Lock:setMutex" :: "deferUnlock:setMutex" :: rest =>
+      rest.contains "open" && rest.contains "rename" &&
+      rest.all (fun s => s == "open" || s == "write" || s == "rename" || s == "remove")
+  | _ => false
+
+theorem set_serialised_regenerated :
+    setLockOk Hc.Generated.setPath = true ∧ Hc.Generated.setMutexIsPackageLevel = true := by decide
 
 end Hc.Props.C18
